@@ -1,6 +1,7 @@
 """Per-property checks: generators, correspondence (model vs implementation on projected observables) and
 property-level relations evaluated on the implementation's own outputs."""
 import csv as pycsv, io, itertools, json, os, re, subprocess, tempfile, shutil
+from fractions import Fraction
 from . import build, run, gen
 from .core import Ctx
 
@@ -73,6 +74,39 @@ def parse_resolved(text):
         d[bytes.fromhex(k)] = [(bytes.fromhex(e.split(":")[0]), e.split(":")[1]) for e in els.split(",") if e]
     return ("ok", d)
 
+def expected_resolution(items):
+    """the property's right-hand side, computed from the abstract book with exact rationals: for every recipe the sum over all
+    ingredient paths of the product of the coefficients, per undefined name reached. None when a coefficient is not a plain decimal."""
+    from fractions import Fraction
+    book = {}
+    cur = None
+    for it in items:
+        if it[0] == "heading": cur = it[1]; book[cur] = []
+        elif it[0] == "entry" and cur is not None:
+            try: book[cur].append((it[1], Fraction(it[2])))
+            except (ValueError, ZeroDivisionError): return None
+    memo = {}
+    def res(r, depth=0):
+        if r in memo: return memo[r]
+        if depth > 40: raise RecursionError
+        acc = {}
+        for ing, c in book[r]:
+            if ing in book:
+                for x, v in res(ing, depth + 1).items(): acc[x] = acc.get(x, 0) + v * c
+            else: acc[ing] = acc.get(ing, 0) + c
+        memo[r] = acc
+        return acc
+    try: return {r: res(r) for r in book}
+    except RecursionError: return None
+
+def bits_to_fraction(b):
+    import struct
+    from fractions import Fraction
+    if b == "nan": return None
+    x = struct.unpack(">d", int(b).to_bytes(8, "big"))[0]
+    if x != x or x in (float("inf"), float("-inf")): return None
+    return Fraction(x)
+
 def resolve_stream(ctx, books, depths, repeat, tagkey):
     """books: list of (bytes, meta-ish dict); compares the implementation (both entry points, `repeat` fresh maps each) with the model
     under three different visiting orders; checks the property's clauses on the implementation's result"""
@@ -99,6 +133,18 @@ def resolve_stream(ctx, books, depths, repeat, tagkey):
                 names = [n for n, _ in els]
                 if names != sorted(set(names)): ctx.violation("C01:unsorted-or-duplicate", "resolved list of %r not strictly sorted" % rname, rep)
                 if any(n in book_names for n in names): ctx.violation("C01:recipe-left-unexpanded", "resolved list of %r still names a recipe" % rname, rep)
+            exp = expected_resolution(meta["items"]) if meta.get("items") else None
+            if exp is not None:
+                ctx.tally("sum_of_paths_oracle", "applied")
+                for rname, els in pi[1].items():
+                    want = exp.get(rname.decode("utf-8", "surrogateescape"))
+                    if want is None: continue
+                    got = {n.decode("utf-8", "surrogateescape"): bits_to_fraction(b2) for n, b2 in els}
+                    if set(got) != set(want):
+                        ctx.violation("C01:wrong-elements", "recipe %r resolves to the elements %r, the basic elements reachable from it are %r" % (rname, sorted(got)[:6], sorted(want)[:6]), rep); break
+                    bad = [(x, got[x], want[x]) for x in want if got[x] is not None and abs(got[x] - want[x]) > abs(want[x]) / 10 ** 9 + Fraction(1, 10 ** 12)]
+                    if bad:
+                        ctx.violation("C01:not-sum-of-path-products", "recipe %r, element %r: resolved amount %s, sum over ingredient paths of the products %s" % (rname, bad[0][0], float(bad[0][1]), float(bad[0][2])), rep); break
     return ires
 
 def check_C01(ctx):
@@ -108,6 +154,7 @@ def check_C01(ctx):
     for k in range(n):
         items, meta = gen.book(r, depth=r.randint(1, 5), fancy=0.15, envelope=r.random() < 0.4)
         b = gen.render_items(r, gen.decorate(r, items, 0.1))
+        meta["items"] = items
         books.append((b, meta)); depths.append(r.choice([10, 10, 10, 6, 7, 12]))
         nest = max(meta["layer"].values()) if meta["layer"] else 0
         shared = any(sum(1 for x in meta["defs"].values() for (y, _) in x if y == z) > 1 for z in meta["recipes"])
